@@ -3,6 +3,9 @@ import json, os
 
 ALL = ["C%02d" % i for i in range(1, 21)]
 
+loopnote = "Virtual clock and scripted poll results (the harness supplies clock_gettime/epoll_ctl/epoll_wait/random); programs are seeded random plus directed scenarios, not an exhaustive enumeration; TLC, sanitizers and the h_loop.c projection are trusted."
+looptech = "TLA+ specification (TLC: bounded random exploration of the spec) + recorded executions of the real loop validated against it by TLC (trace validation)"
+
 # id -> dict(text, note, technique, design_ref)
 CHECKS = {
  "C20": dict(
